@@ -67,6 +67,8 @@ def run(ctx):
     ctx.decided = ['D2 every equilibrium component object built by the solver receives the solver\'s own property package (never the global default)',
                    'D4 iso-fugacity shape: both fixed-point kernels update K <- pcf*Psat/P * gamma(x)/phi(y) (gamma at the liquid, phi at the vapour composition) '
                    'and x <- z/(1+V(K-1)); xy gives y ~ x*K; the Gibbs-minimisation path uses f_L = x*gamma(x)*pcf*Psat and f_V = y*P*phi(y)',
+                   'D5 single-component H/S specifications: the vapour fraction on the two-phase path is (X - X_bubble)/(X_dew - X_bubble), X_dew evaluated with all '
+                   'material in the vapour row and X_bubble with all in the liquid row, and the vapour amount is mol*V (so that V*X_dew + (1-V)*X_bubble = X)',
                    'D1 specification plumbing: specified T/P reach the thermal condition on every normal path, stored values have the sink\'s kind, '
                    'VLE.__call__ dispatch passes like to like and is exhaustive']
     ctx.not_decided = ['residuals of V/H/S specifications', 'iso-fugacity and phase-boundary clauses', 'agreement with Rachford-Rice', 'flow scaling']
@@ -180,6 +182,8 @@ def run(ctx):
     per_call_state(ctx, d4, vle)
     d5 = ctx.rule('D4', 'equilibrium ratios and fugacities have the iso-fugacity shape', floor=9)
     isofugacity_shape(ctx, d5, vle)
+    d6 = ctx.rule('D5', 'single-component H/S specification: lever rule between the saturated states', floor=4)
+    lever_rule_HS(ctx, d6, vle)
 
 
 SUPPORT_ONLY = {'nonzero_keys', 'any', 'nonzero', 'keys', 'nonzero_index', 'has_data'}
@@ -521,3 +525,55 @@ def _classify(fm):
             key = a
         out[key] = out.get(key, 0) + e
     return out
+
+
+def lever_rule_HS(ctx, rule, vle):
+    """For one volatile chemical at saturation H (or S) is linear in the vapour fraction: X = V X_dew + (1 - V) X_bubble, so the
+    specified X is reproduced iff V = (X - X_bubble)/(X_dew - X_bubble) with X_dew the all-vapour and X_bubble the all-liquid value."""
+    names = sorted(n for n in vle.methods if re.match(r'^_set_[TP][HS]_chemical$', n))
+    if len(names) < 4:
+        raise AnalysisError('VLE: expected 4 single-component H/S helpers, found %s' % names)
+    for name in names:
+        f = vle.methods[name]
+        spec = f.params[2]
+        cons = 'VLE.' + name
+        # the two saturated values are the SAME call text evaluated in two different states of the phase rows:
+        # give every call site of the mixture property its own atom
+        def site_hook(node, lin):
+            if isinstance(node.func, ast.Attribute) and re.match(r'^x[HS]$', node.func.attr):
+                return Form.atom('%s@site%d.%d' % (node.func.attr, node.lineno, node.col_offset))
+            return None
+        ps, _ = run_paths(f.node, follow_except=False, call_hook=site_hook)
+        two = [p for p in ps if not p.raised and all(t[1] is False for t in p.conds if not isinstance(t[0], str))]
+        if not two:
+            rule.fail(cons, 'no-two-phase-path', 'no path on which both saturation tests fail', f, f.node)
+            continue
+        p = two[0]
+        vap_state = None
+        sat = []          # (form of the saturated value, vapour row content when it was evaluated)
+        Vev = None
+        vstore = None
+        for e in p.events:
+            if e.kind == 'store' and e.target.startswith('self._vapor_mol['):
+                vap_state = e.value
+                vstore = e
+            if e.kind == 'assign' and isinstance(e.value, Form) and len(e.value.t) == 1 and len(list(e.value.t)[0]) == 1 \
+                    and re.match(r'^x[HS]@site', list(e.value.t)[0][0][0]) and vap_state is not None:
+                sat.append((e.value, vap_state))
+            if e.kind == 'assign' and isinstance(e.stmt, ast.Assign) and isinstance(e.stmt.value, ast.BinOp) and isinstance(e.stmt.value.op, ast.Div):
+                Vev = e
+        dew = [v for v, st in sat if not st.is_zero()]
+        bub = [v for v, st in sat if st.is_zero()]
+        if len(dew) != 1 or len(bub) != 1 or Vev is None or vstore is None:
+            rule.fail(cons, 'lever-rule', 'saturated values / vapour fraction not recognised on the two-phase path', f, f.node)
+            continue
+        Xd, Xb, X = dew[0], bub[0], Form.atom(spec)
+
+        def frac(num, den):
+            return num * Form({((('(%s)' % den.pretty()), -1),): 1})
+        if Vev.value in (frac(X - Xb, Xd - Xb), frac(Xb - X, Xb - Xd)):
+            mol = vstore.value
+            rule.ok(cons, 'V = (%s - X_bubble)/(X_dew - X_bubble); X_dew with the vapour row full, X_bubble with it empty' % spec, f, Vev.stmt)
+        else:
+            rule.fail(cons, 'lever-rule', 'the vapour fraction is %s; reproducing the specified %s needs (%s - X_bubble)/(X_dew - X_bubble) with X_dew = %s (all vapour) '
+                      'and X_bubble = %s (all liquid)' % (Vev.value.pretty()[:300], spec, spec, Xd.pretty()[:80], Xb.pretty()[:80]), f, Vev.stmt)
